@@ -410,6 +410,11 @@ def _sc_bin(tr, k, x, y):
     if k in ('lt', 'le', 'gt', 'ge', 'eq', 'ne'):
         if (x.e or y.e or not both) and abs(float(a - b)) <= 4 * (x.e + y.e) + 1e-9:
             tr.fragile = True
+        if k in ('eq', 'ne') and tr.floats and a == b:
+            # exact equality of two numerically equal numbers of different exactness is sympy's business: since
+            # sympy 1.13 Eq(Float(-16.0), Integer(-16)) is False (structural), numpy / python say True.  Wherever floats
+            # (python, numpy or sympy Floats) are involved, a tie in Eq / Ne is therefore not judged.
+            tr.fragile = True
         return {'lt': a < b, 'le': a <= b, 'gt': a > b, 'ge': a >= b, 'eq': a == b, 'ne': a != b}[k]
     raise core.MachineryError(k)
 
